@@ -97,11 +97,13 @@ CHECKS = {
         ],
     },
     "C08": {
-        "bounds": {"quick": "inductive: (1) from any parser state satisfying I (depth=0, ctx=nil; tokens, cursor, current token, position mapping of length 0..2 arbitrary; strict/dialect symbolic) every entry point on every <= 3-token stream re-establishes I and keeps the configuration; (2) from any such state the outcome (verdict, error code, error location, tree) of every entry point on <= 3 tokens (statement start) / <= 2 tokens after SELECT equals a fresh instance's; (3) PutParser+GetParser / Reset give back an instance equal to a new one, Release clears per-parse state",
+        "bounds": {"quick": "inductive: (1) from any parser state satisfying I (depth=0, ctx=nil; tokens, cursor, current token, position mapping of length 0..2 arbitrary; strict/dialect symbolic) every entry point on every <= 3-token stream re-establishes I and keeps the configuration; (2) from any such state the outcome (verdict, error code, error location, tree) of every entry point on <= 3 tokens (statement start) / <= 2 tokens after SELECT equals a fresh instance's; (3) PutParser+GetParser / Reset give back an instance equal to a new one, Release clears per-parse state; (4) tokenizer instances: after tokenizing one of 5 earlier texts (multi-line, failing, with comments) - reused directly, after Reset, or through the pool - every input <= 3 bytes over {$ a \\n \" \\\\ ' space} gives the tokens, spans, comments and error (code, message, location) of a fresh instance",
                    "thorough": "(2) with <= 4 tokens"},
-        "outside": "tokenizer instances (their reuse is covered by the tokenizer harness VxC08_Tok*); histories that break I through data races or through callers writing unexported fields",
+        "outside": "tokenizer histories longer than one earlier call; histories that break I through data races or through callers writing unexported fields",
         "assumptions": ["sync.Pool is modelled as a LIFO stack (a single-P process without GC)"],
-        "runs": parruns(["VxC08_Invariant2", "VxC08_DepthRestored", "VxC08_Indep_Start3", "VxC08_Indep_Select2", "VxC08_Pool"], ["VxC08_Invariant", "VxC08_DepthRestored", "VxC08_Indep_Start4", "VxC08_Indep_Select3", "VxC08_Pool"], ["C08.inv_depth", "C08.same_tree", "C08.same_location"]),
+        "runs": parruns(["VxC08_Invariant2", "VxC08_DepthRestored", "VxC08_Indep_Start3", "VxC08_Indep_Select2", "VxC08_Pool"], ["VxC08_Invariant", "VxC08_DepthRestored", "VxC08_Indep_Start4", "VxC08_Indep_Select3", "VxC08_Pool"], ["C08.inv_depth", "C08.same_tree", "C08.same_location"]) + [
+            {"pkg": TOK, "harness": "VxC08_TokReuse3", "tiers": ["quick"], "expect_asserts": ["C08.tok_same_tokens", "C08.tok_same_spans"]},
+            {"pkg": TOK, "harness": "VxC08_TokReuse4", "tiers": ["thorough"], "expect_asserts": ["C08.tok_same_tokens", "C08.tok_same_spans"]}],
     },
     "C09": {
         "bounds": {"quick": "cleanliness: every Get*/Put* pair of pkg/sql/ast/pool.go (generated from the current source), released directly and through the tree-release path, with (a) every field populated and (b) each single field populated in turn (type-directed, symbolic contents; interface fields hold a shared sentinel node); aliasing: every history of <= 3 steps over {parse one of 7 texts and hold, parse and release, release a held tree} with all held trees frozen; tokenizer: two consecutive Tokenize calls (same and pooled instance) over all inputs <= 3 bytes of the comment alphabet with the first call's tokens and comments frozen",
@@ -236,10 +238,12 @@ CHECKS = {
         "runs": parruns(["VxC12_Soup_Start3", "VxC12_Script2q", "VxC12_Twins"], ["VxC12_Soup_Start4", "VxC12_Soup_Semi4", "VxC12_Script2", "VxC12_Script3", "VxC12_Soup_Semi3", "VxC12_Twins"], ["C12.iff", "C12.no_loss", "C12.one_error_per_malformed", "C12.exactly_the_good"], generic=["unwind"]),
     },
     "C13": {
-        "bounds": {"quick": "every failing path of the C01 runs (same bounds, including every truncation of the 43-statement corpus): tokenizer errors and low-level parser errors", "thorough": "same as C01 thorough"},
-        "outside": "wording of messages and hints; errors of the gosqlx wrappers (checked by C07 harness); reproducibility across Go map iteration order",
+        "bounds": {"quick": "every failing path of the C01 runs (same bounds, including every truncation of the 43-statement corpus): tokenizer errors and low-level parser errors; reproducibility: a reused tokenizer instance reports the same code, message and location as a fresh one (inputs <= 3 bytes over the failing-literal alphabet after 5 earlier texts)", "thorough": "same as C01 thorough"},
+        "outside": "wording of messages and hints; errors of the gosqlx wrappers (checked by C07 harness); reproducibility across Go map iteration order and across parser instance histories (the latter is C08's independence claim)",
         "assumptions": ["documented code families: E1xxx tokenizer, E2xxx parser"],
-        "runs": tokruns(["C13.tok_structured", "C13.tok_family"], ["VxC04_All2", "VxC04_Lex3"], ["VxC04_All3", "VxC04_Lex4"]) + parruns(["VxSoup_Start2", "VxSoup_Select2", "VxSoup_From2", "VxSoup_Where2", "VxSoup_Cut0"], ["VxSoup_Cut1", "VxSoup_Start3", "VxSoup_Select3", "VxSoup_From3", "VxSoup_Where3"], ["C13.structured", "C13.family"]),
+        "runs": tokruns(["C13.tok_structured", "C13.tok_family"], ["VxC04_All2", "VxC04_Lex3"], ["VxC04_All3", "VxC04_Lex4"]) + parruns(["VxSoup_Start2", "VxSoup_Select2", "VxSoup_From2", "VxSoup_Where2", "VxSoup_Cut0"], ["VxSoup_Cut1", "VxSoup_Start3", "VxSoup_Select3", "VxSoup_From3", "VxSoup_Where3"], ["C13.structured", "C13.family"]) + [
+            {"pkg": TOK, "harness": "VxC08_TokReuse3", "tiers": ["quick"], "expect_asserts": ["C13.tok_reproducible", "C13.tok_same_location"]},
+            {"pkg": TOK, "harness": "VxC08_TokReuse4", "tiers": ["thorough"], "expect_asserts": ["C13.tok_reproducible", "C13.tok_same_location"]}],
     },
     "C04": {
         "bounds": {"quick": "all byte strings of length <= 2 over all 256 byte values; length <= 3 over the 24-symbol lexical alphabet; length <= 5 over the comment alphabet {- / * \\n a space}; word slots: 13 first words (the ten multi-word keyword starts in mixed case, an identifier, SELECT, LEFTY) x <= 2 symbolic separator bytes over {space \\n - ,} x 10 second words (BY, JOIN, SETS, OUTER, x, BYE, 1, none) x <= 1 separator byte x 3 third words",
